@@ -328,3 +328,6 @@ impl DifficultyValues {
         diff_objects
     }
 }
+
+#[cfg(rosu_pp_verif)]
+pub mod verif_skills;
